@@ -58,7 +58,30 @@ def via_source(text, name='Src'):
     mod = types.ModuleType(f'gensrc_{name}')
     sys.modules[mod.__name__] = mod
     exec(compile(src, f'<model source {name}>', 'exec'), mod.__dict__)
+    LAST_SOURCE['module'] = mod
+    LAST_SOURCE['parser'] = mod.__dict__.get(f'{name}Parser')
     return mod.__dict__['GRAMMAR_MODEL']
+
+
+LAST_SOURCE: dict = {}
+
+
+def compare_parser_class(m, label, model, inputs):
+    """The emitted module also carries a <Name>Parser class that parses with its GRAMMAR_MODEL: same outcomes as the model
+    (for grammars parsed from their first rule; asmodel=False, since the class builds object models by default)."""
+    pcls = LAST_SOURCE.get('parser')
+    if pcls is None or impl.with_start(model, {}):
+        return
+    for t in inputs:
+        a = impl.parse(model, t)
+        try:
+            b = impl.parse(pcls(), t, asmodel=False)     # (the class builds object models unless told otherwise)
+        except Exception as e:  # noqa
+            b = ('exc', type(e).__name__, str(e)[:100])
+        m.add('evaluations', 2)
+        if a[0] != b[0] or (a[0] == 'ok' and a[1] != b[1]):
+            m.violation('source/parser-class-differs-from-the-model', grammar=label, input=t, model=a, parser_class=b)
+            break
 
 
 def cause(text):
@@ -130,6 +153,8 @@ def check_text(m, label, text, inputs, routes=('json', 'pickle', 'source', 'pick
             continue
         m.add('evaluations')
         compare(m, label, route, model, other, inputs)
+        if route == 'source':
+            compare_parser_class(m, label, model, inputs)
     # parse results must be JSON-able
     from tatsu.util.asjson import asjson
     for t in inputs[:20]:
